@@ -18,10 +18,12 @@ import (
 	"errors"
 	"fmt"
 	"net"
+	"os"
 	"runtime"
 	"strconv"
 	"strings"
 	"sync"
+	"sync/atomic"
 	"time"
 
 	"go.einride.tech/can"
@@ -568,9 +570,34 @@ func (w *world) finish(tid int, err error) {
 	w.mu.Unlock()
 }
 
+// A panic inside a runner function (e.g. time.NewTicker with a non-positive duration) is caught at
+// the top of its goroutine and logged as PN.t.<hex of the panic text>: the schedule goes on and the
+// model driver reports it, instead of the whole harness dying without a trace.
+var sawPanic int32
+
+func (w *world) caught(tid int) {
+	if os.Getenv("VERIF_RUNNER_NORECOVER") != "" {
+		return // (for testing how a crash of the harness is reported)
+	}
+	if p := recover(); p != nil {
+		atomic.StoreInt32(&sawPanic, 1)
+		msg := fmt.Sprint(p)
+		if len(msg) > 200 {
+			msg = msg[:200]
+		}
+		w.mu.Lock()
+		w.log = append(w.log, fmt.Sprintf("PN.%x.%s", tid, hexs(msg)))
+		w.done[tid] = true
+		w.parked[tid] = false
+		w.notify(tid)
+		w.mu.Unlock()
+	}
+}
+
 func (w *world) startReceiver(tid int, n *fakeNode, script []rxItem) {
 	w.rx = &fakeRx{w: w, script: script}
 	go func() {
+		defer w.caught(tid)
 		w.reg(tid)
 		err := canrunner.RunMessageReceiver(w.ctx, w.rx, n, &fakeClock{skew: w.skew})
 		w.finish(tid, err)
@@ -579,6 +606,7 @@ func (w *world) startReceiver(tid int, n *fakeNode, script []rxItem) {
 
 func (w *world) startTransmitter(tid int, n *fakeNode, m *fakeTxMsg) {
 	go func() {
+		defer w.caught(tid)
 		w.reg(tid)
 		err := canrunner.RunMessageTransmitter(w.ctx, &fakeTx{w: w, m: m}, n, m, &fakeClock{skew: w.skew})
 		w.finish(tid, err)
